@@ -8,6 +8,7 @@ import (
 	"bytes"
 	"encoding/json"
 	"fmt"
+	"hash/fnv"
 	"io"
 	"math/rand"
 	"net/http"
@@ -147,7 +148,17 @@ func (d *c14Drv) concretise(kinds []string, defKeys []string) []tline {
 }
 
 func targetKV(t *vegeta.Target) KV {
-	return KV{"method": t.Method, "url": t.URL, "header": hdrList(t.Header), "body": string(t.Body)}
+	return KV{"method": t.Method, "url": t.URL, "header": hdrList(t.Header), "body": bodyLog(t.Body)}
+}
+
+// bodyLog is the body as the trace shows it: itself, or length and digest when it is large.
+func bodyLog(b []byte) string {
+	if len(b) <= 2048 {
+		return string(b)
+	}
+	h := fnv.New64a()
+	h.Write(b)
+	return fmt.Sprintf("big:%d:%x", len(b), h.Sum64())
 }
 
 // decodeAll drives a targeter to exhaustion, logging every call and re-inspecting earlier targets.
@@ -308,7 +319,10 @@ func (d *c14Drv) jsonCase(n int, spare bool, viaEncoder bool) {
 		}
 		if d.r.Intn(3) == 0 {
 			t.Body = []byte(fmt.Sprintf("body:json-%d %s", i, strings.Repeat("x", d.r.Intn(300))))
-			ln.Body = string(t.Body)
+			if d.cases%5 == 0 && i == n/2 { // a line far beyond any 64 KiB buffer
+				t.Body = append(t.Body, bytes.Repeat([]byte("0123456789abcdef"), 5000+d.r.Intn(2000))...)
+			}
+			ln.Body = bodyLog(t.Body)
 		}
 		if viaEncoder {
 			must(enc.Encode(&t))
